@@ -23,6 +23,10 @@ def gen_case(rng, thorough):
     for i in range(1, nd + 1):
         X, y = U.class_data(rng, n_features=n, n_classes=c)
         ds[i] = (X, y)
+    # class labels are names, not indices: 0..c-1, negative / non-contiguous integers, floats that are no indices
+    lab = [None, None, np.array([-1, 1, 5]), np.array([3, 7, 20]), np.array([1.0, 2.0, 4.0]), np.array([10, 20, 30])][int(rng.integers(0, 6))]
+    if lab is not None:
+        ds = {i: (X_, lab[y_]) for i, (X_, y_) in ds.items()}
     minrows = min(len(ds[i][0]) for i in ds)
     kind = U.BK[int(rng.integers(0, 3))]
     if kind == "Identity":
@@ -328,6 +332,40 @@ def run(chk):
                 i, d = bad
                 chk.violation("correspondence", "c09-model-mismatch", f"SSPOC machine and implementation differ after step {i} {case['history'][i]}: {'; '.join(d)}",
                               {"case": jc, "step": i, "diffs": d})
+    # ---- "the most recent update": the caller reuses ITS arrays / classifier between two identical update requests and changes them
+    #      in place in between (relabelled examples, another regularisation): the second update must train on what is there NOW
+    from sklearn.base import clone
+    from sklearn.linear_model import RidgeClassifier
+    from pysensors.classification import SSPOC
+    for it in range(30 if chk.tier == "thorough" else 10):
+        X, y = U.class_data(rng, n_classes=2 + it % 2)
+        nn = X.shape[1]
+        kk = int(rng.integers(2, nn + 1))
+        clf = RidgeClassifier(alpha=1.0)
+        mdl = SSPOC(classifier=clf, n_sensors=kk)
+        case = {"scenario": "fit; update_sensors(k, xy); caller changes y / the classifier in place; update_sensors(k, xy) again", "X": X.tolist(), "y": y.tolist(), "k": kk}
+        chk.case(case)
+        try:
+            impl.quiet(mdl.fit, X, y, quiet=True)
+            impl.quiet(mdl.update_sensors, n_sensors=kk, xy=(X, y), quiet=True)
+            how = it % 3
+            if how == 0:
+                y[:] = np.roll(y, 1)                       # examples relabelled in place (same array object)
+            elif how == 1:
+                mdl.classifier.set_params(alpha=1e4)       # the classifier reconfigured in place
+            else:
+                X[:, :] = X[::-1].copy()                   # the examples reordered in place, labels not
+            impl.quiet(mdl.update_sensors, n_sensors=kk, xy=(X, y), quiet=True)
+            sel = np.array(mdl.selected_sensors, dtype=int)
+            got = np.asarray(impl.quiet(mdl.predict, X[:, sel])).tolist()
+            ref = clone(mdl.classifier).fit(X[:, sel], y)
+            exp = np.asarray(ref.predict(X[:, sel])).tolist()
+            chk.count("inplace_change_between_identical_updates")
+            if got != exp:
+                chk.violation("impl", "stale-classifier-sensor-input", f"after the caller changed {['y', 'the classifier', 'X'][how]} in place and repeated "
+                              f"update_sensors(n_sensors={kk}, xy=(X, y)), predict gives {got}; a fresh classifier trained on the data as it is now gives {exp}", case)
+        except Exception as e:
+            chk.count("inplace-scenario-rejected:" + type(e).__name__)
     return chk.finish(TRUSTED, "make -C coq && coqc theories/Properties/C09.v && coqc cases_*.v (vm_compute)")
 
 
